@@ -67,6 +67,9 @@ def cases(tier, seed):
         for k in range(1, K + 1):
             for kind in ("solver_error", "inaccurate"):
                 out.append(dict(base, plan={str(k): kind}))
+                # the host application's logging configuration is part of the environment: the library's logger silenced
+                # (the harness default is ERROR, i.e. above WARNING), at the library default INFO, or verbose
+                out.append(dict(base, plan={str(k): kind}, log_level=["INFO", "DEBUG", "CRITICAL"][k % 3]))
         if tier == "thorough":
             for j in range(1, K + 1):
                 for k in range(j + 1, K + 1):
@@ -76,7 +79,7 @@ def cases(tier, seed):
 
 
 def describe(case):
-    return {"plan": case["plan"], "cfg": {k: case["cfg"][k] for k in ("pi_method", "estimands", "alphas", "features", "model_parameters")}}
+    return {"plan": case["plan"], "log_level": case.get("log_level", "default"), "cfg": {k: case["cfg"][k] for k in ("pi_method", "estimands", "alphas", "features", "model_parameters")}}
 
 
 def evaluate(case):
@@ -96,7 +99,17 @@ def evaluate(case):
         raise RuntimeError(f"fault-free run failed: {ref}")
     plan = {int(k): v for k, v in case["plan"].items()}
     _SEAM.reset(plan)
-    res = E.run_estimates(units, cfg)
+    import logging
+
+    lg = logging.getLogger("elexmodel")
+    level0 = lg.level
+    if case.get("log_level"):
+        lg.setLevel(getattr(logging, case["log_level"]))
+        cov["runs_with_log_level_" + case["log_level"]] += 1
+    try:
+        res = E.run_estimates(units, cfg)
+    finally:
+        lg.setLevel(level0)
     calls = list(_SEAM.calls)
     _SEAM.reset({})
     K = len(cfg["estimands"]) * (1 + 2 * len(cfg["alphas"]))
@@ -110,7 +123,7 @@ def evaluate(case):
         role = (c["position"] - 1) % (1 + 2 * len(cfg["alphas"]))  # solve order within one estimand: median, then lower/upper per level
         cov["fault_on_" + ("median" if role == 0 else ("lower" if role % 2 == 1 else "upper"))] += 1
     if "error" in res:
-        viol(f"run-failed:{res['error'][0]}", f"plan={plan} ({pm}): run raised {res['error']}")
+        viol(f"run-failed:{res['error'][0]}", f"plan={plan} ({pm}{', elexmodel logger at ' + case['log_level'] if case.get('log_level') else ''}): run raised {res['error']}")
     else:
         # retry discipline
         for i, c in enumerate(calls):
@@ -170,4 +183,4 @@ def evaluate(case):
     }
 
 
-REQUIRED_COUNTERS = {"faults_delivered": 100, "fault_on_median": 10, "fault_on_lower": 10, "fault_on_upper": 10}
+REQUIRED_COUNTERS = {"faults_delivered": 100, "fault_on_median": 10, "fault_on_lower": 10, "fault_on_upper": 10, "runs_with_log_level_INFO": 20, "runs_with_log_level_DEBUG": 20}
